@@ -152,11 +152,63 @@ def r16c(ctx, arm):
         ctx.report("R16c", f, arm, f"formatted gate {sorted(gate) if isinstance(gate, (set, frozenset)) else gate} vs {sorted(owners)}",
                    "replace(formatted=True) re-normalises white space for a tag set that differs from the classes that implement append_plain_text: "
                    "either AttributeError on a container without the method, or spaces/tabs/newlines left unencoded in one that has it")
-    calls = [c for c in ast.walk(arm) if isinstance(c, ast.Call) and call_name(c) == "append_plain_text"]
-    okc = len(calls) == 1 and any("formatted" in ast.unparse(g) and p for g, p in structural_guards(calls[0], stop=arm))
+    calls = [c for c in walk_no_nested(f.node) if isinstance(c, ast.Call) and call_name(c) == "append_plain_text"]
+    okc = False
+    if len(calls) == 1:
+        c0 = calls[0]
+        if any("formatted" in ast.unparse(g) and p for g, p in structural_guards(c0, stop=f.node)):
+            okc = True  # called directly under the gate
+        else:
+            # deferred form: the gate fills a collection, a later loop over that collection normalises each container
+            from ..paths import enclosing_loops
+            lp = enclosing_loops(c0)
+            recv = c0.func.value.id if isinstance(c0.func, ast.Attribute) and isinstance(c0.func.value, ast.Name) else None
+            if lp and recv and isinstance(lp[0].target, ast.Name) and lp[0].target.id == recv:
+                coll = {x.id for x in ast.walk(lp[0].iter) if isinstance(x, ast.Name)}
+                fills = []
+                for n in walk_no_nested(f.node):
+                    if isinstance(n, ast.Assign) and isinstance(n.targets[0], ast.Subscript) and isinstance(n.targets[0].value, ast.Name) and n.targets[0].value.id in coll:
+                        fills.append(n)
+                    if isinstance(n, ast.Call) and call_name(n) in ("append", "add") and isinstance(n.func, ast.Attribute) and isinstance(n.func.value, ast.Name) \
+                            and n.func.value.id in coll:
+                        fills.append(n)
+                okc = bool(fills) and all(any("formatted" in ast.unparse(g) and p for g, p in structural_guards(x, stop=f.node)) for x in fills)
     ctx.instance("R16c", f"{f.file}:{f.ident}", "append_plain_text(\"\") only under formatted", ok=okc)
     if not okc:
         ctx.report("R16c", f, arm, "append_plain_text gate", "white-space re-normalisation is not controlled by the formatted flag")
+
+
+def r16f(ctx, loop):
+    """The text nodes are collected before the loop: nothing inside the loop may restructure the tree they belong to."""
+    repo = ctx.repo
+    ctx.rule("R16f", "no structural change of the tree while iterating its pre-collected text nodes (only .text/.tail write-backs)", floor=1)
+    f = repo.func("Element.replace")
+    import re as _re
+    STRUCT = _re.compile(r"\.(remove|insert|append|extend|clear|replace|addnext|addprevious)\(")
+    eff = Eff(repo)
+    calls_ = [c for s_ in loop.body for c in ast.walk(s_) if isinstance(c, ast.Call) and isinstance(c.func, ast.Attribute)]
+    n = 0
+    for c in calls_:
+        m = c.func.attr
+        targets = [g for g in eff.by_name.get(m, ()) if g.cls is not None and eff.class_kind(g.cls) == "ELEM" and g.kind not in ("setter", "deleter")]
+        if not targets or m in ("xpath", "findall", "subn", "is_text"):
+            continue
+        eff.solve([(g, {}) for g in targets])
+        bad = []
+        for g in targets:
+            s = eff.summary(g, {})
+            for (atom, skey), (site, chain) in s.muts.items():
+                if atom == "S" and STRUCT.search(site.what):
+                    bad.append((g, site))
+        n += 1
+        ctx.instance("R16f", f"{f.file}:{f.ident}", f"{norm(c, 40)} inside the text-node loop does not restructure the tree", ok=not bad, nontrivial=True, line=c.lineno)
+        if bad:
+            g, site = bad[0]
+            ctx.report("R16f", f, c, f"{norm(c, 50)} inside the loop over the collected text nodes",
+                       f"{g.ident} removes/re-inserts children ({site.func.ident}: {site.what}); the text nodes still to be visited were collected before the loop "
+                       f"and now point at moved nodes: their replacement is written to the wrong place and text is duplicated")
+    if n == 0:
+        ctx.instance("R16f", f"{f.file}:{f.ident}", "the loop body calls no element method besides the write-backs", ok=True, line=loop.lineno)
 
 
 def r16d(ctx):
@@ -218,6 +270,7 @@ def run(ctx):
     arm, else_incs, loop = r16a(ctx)
     r16b(ctx, arm, else_incs, loop)
     r16c(ctx, arm)
+    r16f(ctx, loop)
     r16d(ctx)
     r16e(ctx)
 
@@ -232,15 +285,17 @@ SEEDS = [
          "                count += len(cpattern.findall(str(text)))", "                count += 1 if cpattern.search(str(text)) else 0", "R16a"),
     Seed("replace visits only direct text", "fault", _EL, '        for text in self.xpath("descendant::text()"):', '        for text in self.xpath("text()"):', "R16a"),
     Seed("early exit decided on the joined text", "fault", _EL,
-         "        cpattern = re.compile(pattern)\n        count = 0\n        for text in self.xpath(\"descendant::text()\"):",
-         "        cpattern = re.compile(pattern)\n        if cpattern.search(self.text_recursive) is None:\n            return 0\n        count = 0\n        for text in self.xpath(\"descendant::text()\"):", "R16a"),
+         "        cpattern = re.compile(pattern)\n        count = 0\n",
+         "        cpattern = re.compile(pattern)\n        if cpattern.search(self.text_recursive) is None:\n            return 0\n        count = 0\n", "R16a"),
+    Seed("white space re-encoded inside the loop again", "fault", _EL,
+         "                    to_format[id(container.__element)] = container\n", "                    container.append_plain_text(\"\")  # type; ignore\n", "R16f"),
     Seed("write-back slots swapped", "fault", _EL,
          "                if text.is_text():  # type: ignore\n                    container.text = new_text  # type: ignore\n                else:\n                    container.tail = new_text  # type: ignore",
          "                if text.is_text():  # type: ignore\n                    container.tail = new_text  # type: ignore\n                else:\n                    container.text = new_text  # type: ignore", "R16b"),
     Seed("tail always written", "fault", _EL,
          "                if text.is_text():  # type: ignore\n                    container.text = new_text  # type: ignore\n                else:\n                    container.tail = new_text  # type: ignore",
          "                container.text = new_text  # type: ignore", "R16b"),
-    Seed("count adds one per node", "fault", _EL, "                count += number\n        return count", "                count += 1\n        return count", "R16b"),
+    Seed("count adds one per node", "fault", _EL, "                count += number\n", "                count += 1\n", "R16b"),
     Seed("formatted gate forgets spans", "fault", _EL, '                    "text:p",\n                    "text:span",\n                }:', '                    "text:p",\n                }:', "R16c"),
     Seed("formatted gate includes links", "fault", _EL, '                    "text:p",\n                    "text:span",\n                }:', '                    "text:p",\n                    "text:span",\n                    "text:a",\n                }:', "R16c"),
     Seed("normalisation not gated by formatted", "fault", _EL, "                if formatted and container.tag in {  # type; ignore", "                if container.tag in {  # type; ignore", "R16c"),
